@@ -79,7 +79,12 @@ impl ChanView {
 }
 /// `queued_fwd` / `queued_dec`: previous hops (channel index, htlc id) of the AddHTLC entries in the manager's forward_htlcs /
 /// pending_intercepted_htlcs, resp. of the update_adds still in decode_update_add_htlcs (committed inbound, not yet forwarded)
-struct Point { mgr: Vec<u8>, mgr_rebuild: Vec<u8>, mons: Vec<Vec<u8>>, views: Vec<ChanView>, trace_len: usize, n_pays: usize, op: String, queued_fwd: Vec<(usize, u64)>, queued_dec: Vec<(usize, u64)> }
+struct Point { mgr: Vec<u8>, mgr_rebuild: Vec<u8>, mons: Vec<Vec<u8>>, views: Vec<ChanView>, trace_len: usize, n_pays: usize, op: String, queued_fwd: Vec<(usize, u64)>, queued_dec: Vec<(usize, u64)>, extras: Vec<Extra>, pays: Vec<String>, evq: Vec<String> }
+/// HTLC-level inputs of the reconstruction (NOT part of the determinism check of a re-run: payment ids / session keys are random):
+/// the monitor's get_all_current_outbound_htlcs / get_onchain_failed_outbound_htlcs entries by source key, whether it has claimable
+/// balances, and the sources of the channel's outbound HTLCs (holding | pending | announced-blocked) — hooks of /repo commit 687d16c
+#[derive(Clone, Debug, Default)]
+struct Extra { mon_htlcs: Vec<String>, onchain_failed: Vec<String>, balances_empty: bool, chan_htlcs: Vec<String> }
 
 /// (queued forwards, awaiting decode) of node i's live manager, from the persisted-state dump (hook of C12)
 fn queued_of(net: &Net, i: usize) -> (Vec<(usize, u64)>, Vec<(usize, u64)>) {
@@ -112,6 +117,7 @@ fn take_point(net: &Net, t: usize, op: String) -> Point {
 	vh::WRITE_INBOUND_COMMITTED_UPDATE_ADDS.store(false, std::sync::atomic::Ordering::Relaxed);
 	let mut mons = vec![];
 	let mut views = vec![];
+	let mut extras = vec![];
 	for (ci, peer, cid) in chans_of(net, t) {
 		let m = net.nodes[t].chain_monitor.chain_monitor.get_monitor(cid).unwrap();
 		mons.push(m.encode());
@@ -123,9 +129,14 @@ fn take_point(net: &Net, t: usize, op: String) -> Point {
 			pending: net.pending_updates(t, ci),
 			prev_hops: vh::monitor_outbound_htlc_prev_hops(&m).into_iter().map(|(c, id)| (net.chan_idx(&c), id)).collect(),
 		});
+		extras.push(Extra { mon_htlcs: vh::monitor_outbound_htlcs_dump(&m), onchain_failed: vh::monitor_onchain_failed_outbound_htlc_keys(&m), balances_empty: m.get_claimable_balances().is_empty(),
+			chan_htlcs: vh::channel_outbound_htlc_sources(net.nodes[t].node, &net.ids[peer], &cid) });
 	}
+	let dump_q = vh::manager_persisted_state_dump(net.nodes[t].node);
+	let pays: Vec<String> = dump_q.iter().filter(|l| l.starts_with("outbound ")).cloned().collect();
+	let evq: Vec<String> = dump_q.iter().filter(|l| l.starts_with("event #")).cloned().collect();
 	let (queued_fwd, queued_dec) = queued_of(net, t);
-	Point { mgr, mgr_rebuild, mons, views, trace_len: net.trace.len(), n_pays: net.pays.len(), op, queued_fwd, queued_dec }
+	Point { mgr, mgr_rebuild, mons, views, trace_len: net.trace.len(), n_pays: net.pays.len(), op, queued_fwd, queued_dec, extras, pays, evq }
 }
 
 /// topology 0: line 0 -c0- 1 -c1- 2.   topology 1: "Y" 0 -c0- 2, 1 -c1- 2, 2 -c2- 3 (two inbound channels into node 2,
@@ -363,6 +374,58 @@ fn sum_value_to_self(net: &Net, n: usize) -> Option<u64> {
 	Some(s)
 }
 
+
+/// A second, side-effect-free read of the same bytes (the resulting manager is only dumped, never run): the HTLC-level decisions the
+/// read recorded (hook STARTUP_DECISIONS: failed_htlcs / pending_claims_to_replay) and the persisted-state dump of the manager it
+/// built, BEFORE any background event is processed or any message exchanged.
+fn pure_read(net: &Net, t: usize, mgr: &[u8], mons: &[Vec<u8>]) -> Result<(Vec<String>, Vec<String>), String> {
+	use lightning::chain::{channelmonitor::ChannelMonitor, BlockLocator};
+	use lightning::ln::channelmanager::ChannelManagerReadArgs;
+	use lightning::ln::functional_test_utils::TestChannelManager;
+	use lightning::util::ser::ReadableArgs;
+	use lightning::util::test_channel_signer::TestChannelSigner;
+	guarded(AssertUnwindSafe(|| {
+		let node = &net.nodes[t];
+		let mut monitors_read = vec![];
+		for enc in mons { let mut r = &enc[..]; let (_, m) = <(BlockLocator, ChannelMonitor<TestChannelSigner>)>::read(&mut r, (node.keys_manager, node.keys_manager)).unwrap(); monitors_read.push(m); }
+		let monitors_read: &'static Vec<ChannelMonitor<TestChannelSigner>> = leak(monitors_read);
+		let args = ChannelManagerReadArgs::new(node.keys_manager, node.keys_manager, node.keys_manager, node.fee_estimator, node.chain_monitor, node.tx_broadcaster, node.router, node.message_router, node.logger,
+			node.node.get_current_config(), monitors_read.iter().collect());
+		let mut r = &mgr[..];
+		let (_, m) = <(BlockLocator, TestChannelManager<'static, 'static>)>::read(&mut r, args).unwrap();
+		let decisions = vh::STARTUP_DECISIONS.lock().unwrap().clone();
+		let dump = vh::manager_persisted_state_dump(&m);
+		std::mem::forget(m);
+		(decisions, dump)
+	}))
+}
+
+/// canonical numbering of channels (index in net.chans), payment ids and session keys (rank among those seen in this world)
+struct Keys { chans: Vec<String>, pays: Vec<String>, privs: Vec<String> }
+impl Keys {
+	fn src(&self, key: &str) -> Option<String> {
+		let mut it = key.split(':');
+		match it.next()? {
+			"prev" => { let c = self.chans.iter().position(|n| n == it.next().unwrap_or(""))?; Some(format!("p{}.{}", c, it.next()?)) },
+			"route" => { let p = self.pays.iter().position(|n| n == it.next().unwrap_or(""))?; let k = self.privs.iter().position(|n| n == it.next().unwrap_or(""))?; Some(format!("r{}.{}", p, k)) },
+			_ => None,
+		}
+	}
+}
+fn join_sorted(mut v: Vec<String>) -> String { v.sort(); if v.is_empty() { "-".into() } else { v.join(",") } }
+/// `outbound <id> <State> .. privs=[a,b] ..` -> (id, R|F|A, auto-retryable now, session keys); None for a state the start-up model does not cover
+fn parse_pay(line: &str) -> Option<(String, char, bool, Vec<String>)> {
+	let mut it = line.split(' ');
+	it.next()?; let id = it.next()?.to_string();
+	let st = match it.next()? { "Retryable" => 'R', "Fulfilled" => 'F', "Abandoned" => 'A', _ => return None };
+	let privs: Vec<String> = line.split("privs=[").nth(1)?.split(']').next()?.split(',').filter(|x| !x.is_empty()).map(|x| x.to_string()).collect();
+	let auto = st == 'R' && (|| -> Option<bool> {
+		let n: u64 = line.split("retry=Some(Attempts(").nth(1)?.split(')').next()?.parse().ok()?;
+		let k: u64 = line.split(" attempts=").nth(1)?.split(' ').next()?.parse().ok()?;
+		Some(n > k) })().unwrap_or(false);
+	Some((id, st, auto, privs))
+}
+
 struct World { p: usize, q: usize, mon_pts: Vec<usize>, admissible: bool, rebuild: bool }
 
 fn main() {
@@ -375,7 +438,7 @@ fn main() {
 	let n_scen = if std::env::var("VERIF_C10_ONLY_CHAIN").is_ok() { 0 } else { n_scen };
 	let worlds_per_scen = if args.thorough { 200 } else { 70 }; // a leaked Net per world: memory bounds the thorough tier
 	let mut n_worlds = 0u64; let mut n_adm = 0u64; let mut n_closed = 0u64; let mut n_replay = 0u64; let mut n_second = 0u64; let mut n_settled = 0u64;
-	let mut nondet = 0u64; let mut late_panics = 0u64;
+	let mut nondet = 0u64; let mut late_panics = 0u64; let mut n_recon = 0u64;
 	let mut kf_counts: BTreeMap<String, u64> = BTreeMap::new();
 	let mut anoms: Vec<String> = vec![]; let mut persister_switch = 0u64;
 	for sc in 0..n_scen {
@@ -549,6 +612,66 @@ fn main() {
 					if trace_on { eprintln!("    reconcile {} {} {} => {} | {}", refs(&q0.queued_fwd), refs(&q0.queued_dec), refs(&mons_h), refs(&kept_f), refs(&kept_d)); }
 				}
 			}
+			// ---- reconstruction layer (production reload path): the model's predictions (Restart.claims / fails / paysAfter / bgEvents) against a
+			// second, side-effect-free read of the same bytes, BEFORE any background event runs or any message is exchanged
+			if !w.rebuild { if let Ok((decisions, dump)) = pure_read(&net, t, mgr, &mons) {
+				n_recon += 1;
+				let q0 = &wpts[w.q];
+				let ex: Vec<&Extra> = (0..my.len()).map(|k| &wpts[w.mon_pts[k]].extras[k]).collect();
+				let mut keys = Keys { chans: net.chans.iter().map(|c| format!("{}", c.2)).collect(), pays: vec![], privs: vec![] };
+				let post_pays: Vec<String> = dump.iter().filter(|l| l.starts_with("outbound ")).cloned().collect();
+				{
+					let mut add = |k: &str| { let mut it = k.split(' ').next().unwrap_or("").split(':'); if it.next() == Some("route") { if let (Some(a), Some(b)) = (it.next(), it.next()) { keys.pays.push(a.to_string()); keys.privs.push(b.to_string()); } } };
+					for k in 0..my.len() { for l in ex[k].mon_htlcs.iter().chain(ex[k].onchain_failed.iter()).chain(q0.extras[k].chan_htlcs.iter()) { add(l); } }
+					for l in decisions.iter() { add(l.split(' ').nth(1).unwrap_or("")); }
+				}
+				let parsed_q: Vec<Option<(String, char, bool, Vec<String>)>> = q0.pays.iter().map(|l| parse_pay(l)).collect();
+				let parsed_post: Vec<Option<(String, char, bool, Vec<String>)>> = post_pays.iter().map(|l| parse_pay(l)).collect();
+				for p in parsed_q.iter().chain(parsed_post.iter()).flatten() { keys.pays.push(p.0.clone()); for k in &p.3 { keys.privs.push(k.clone()); } }
+				keys.pays.sort(); keys.pays.dedup(); keys.privs.sort(); keys.privs.dedup();
+				let covered = parsed_q.iter().chain(parsed_post.iter()).all(|p| p.is_some())
+					&& (0..my.len()).all(|k| ex[k].mon_htlcs.iter().chain(ex[k].onchain_failed.iter()).chain(q0.extras[k].chan_htlcs.iter()).all(|l| keys.src(l.split(' ').next().unwrap_or("")).is_some()));
+				if covered {
+					let srcs = |v: Vec<String>| -> String { if v.is_empty() { "-".into() } else { v.join(",") } };
+					let mut op2 = format!("recon {}", my.len());
+					for k in 0..my.len() {
+						let wtok = match qv[k].chan { Some(c) => format!("{}/{}/{}/{}/{}/{}/{}/{}/{}/{}", c[0], c[1], c[2], c[3], c[4], csv(&qv[k].inflight), mv[k].mon_id, mv[k].mon[0], mv[k].mon[1], mv[k].mon[2]), None => "-".into() };
+						let mon: Vec<String> = ex[k].mon_htlcs.iter().map(|l| format!("{}:{}", keys.src(l.split(' ').next().unwrap()).unwrap(), if l.ends_with("preimage=1") { 1 } else { 0 })).collect();
+						let onch: Vec<String> = ex[k].onchain_failed.iter().map(|l| keys.src(l).unwrap()).collect();
+						let pend: Vec<String> = q0.extras[k].chan_htlcs.iter().filter(|l| l.ends_with("kind=pending")).map(|l| keys.src(l.split(' ').next().unwrap()).unwrap()).collect();
+						let drop: Vec<String> = q0.extras[k].chan_htlcs.iter().filter(|l| !l.ends_with("kind=pending")).map(|l| keys.src(l.split(' ').next().unwrap()).unwrap()).collect();
+						op2.push_str(&format!(" {} {} {} {} {} {} {}", my[k].0, wtok, ex[k].balances_empty as u8, srcs(mon), srcs(onch), srcs(pend), srcs(drop)));
+					}
+					let payline = |v: &Vec<Option<(String, char, bool, Vec<String>)>>, with_auto: bool| -> String { join_sorted(v.iter().flatten().map(|p| {
+						let mut pr: Vec<usize> = p.3.iter().map(|k| keys.privs.iter().position(|x| x == k).unwrap()).collect(); pr.sort();
+						let prs = if pr.is_empty() { "-".to_string() } else { pr.iter().map(|x| x.to_string()).collect::<Vec<_>>().join(";") };
+						if with_auto { format!("{}:{}:{}:{}", keys.pays.iter().position(|x| *x == p.0).unwrap(), p.1, p.2 as u8, prs) } else { format!("{}:{}:{}", keys.pays.iter().position(|x| *x == p.0).unwrap(), p.1, prs) } }).collect()) };
+					op2.push_str(&format!(" {}", payline(&parsed_q, true)));
+					let cl: Vec<String> = decisions.iter().filter(|l| l.starts_with("claim ")).map(|l| { let mut it = l.split(' '); it.next(); let src = keys.src(it.next().unwrap_or("")).unwrap_or("?".into());
+						let ds = it.next().unwrap_or("").trim_start_matches("downstream=").to_string(); let closed = it.next().unwrap_or("") == "closed=true";
+						format!("{}@{}:{}", src, keys.chans.iter().position(|n| *n == ds).map(|x| x.to_string()).unwrap_or("?".into()), closed as u8) }).collect();
+					let fl: Vec<String> = decisions.iter().filter(|l| l.starts_with("fail ")).map(|l| { let src = keys.src(l.split(' ').nth(1).unwrap_or("")).unwrap_or("?".into());
+						format!("{}:{}", src, if l.ends_with("reason=ChannelClosed") { "C" } else if l.ends_with("reason=OnChainTimeout") { "O" } else { "?" }) }).collect();
+					let count = |v: &Vec<String>, pat: &str| v.iter().filter(|l| l.starts_with("event #") && l.contains(pat)).count();
+					let post_evs: Vec<String> = dump.iter().filter(|l| l.starts_with("event #")).cloned().collect();
+					let ans = format!("claims={} fails={} pays={} evs=s{},f{}", join_sorted(cl), join_sorted(fl), payline(&parsed_post, false),
+						count(&post_evs, " PaymentSent {").saturating_sub(count(&q0.evq, " PaymentSent {")), count(&post_evs, " PaymentFailed {").saturating_sub(count(&q0.evq, " PaymentFailed {")));
+					let any_cl = decisions.iter().any(|l| l.starts_with("claim ")); let any_fl = decisions.iter().any(|l| l.starts_with("fail "));
+					rec.case(&op2, &ans, &format!("recon:{}{}{}", if any_cl { "claims" } else { "no-claim" }, if any_fl { "+fails" } else { "" }, if chans.iter().any(|c| c.0) { "+stale-closed" } else { "" }), any_cl || any_fl || !post_pays.is_empty());
+					if trace_on { eprintln!("    {} => {}", op2, ans); }
+				} else { rec.discarded += 1; }
+				// wake-up events of every RESUMED channel
+				for &k in &open_q { if !chans[k].0 {
+					let c = qv[k].chan.unwrap(); let hexid = format!("{}", my[k].2);
+					let bg: Vec<&String> = dump.iter().filter(|l| l.starts_with("background ") && l.contains(&hexid)).collect();
+					let muc = bg.iter().find(|l| l.contains("MonitorUpdatesComplete")).and_then(|l| l.split("highest_update_id_completed: ").nth(1)).and_then(|x| x.trim_end_matches(|ch: char| !ch.is_ascii_digit()).parse::<u64>().ok());
+					let mut regen: Vec<u64> = bg.iter().filter(|l| l.contains("MonitorUpdateRegeneratedOnStartup")).filter_map(|l| l.split("update_id=").nth(1).and_then(|x| x.parse::<u64>().ok())).filter(|id| *id <= c[1]).collect(); regen.sort();
+					let unb = bg.iter().any(|l| l.contains("AttemptUnblockMonitorUpdates"));
+					let first = match muc { Some(id) => format!("muc:{}", id), None => if regen.is_empty() { "none".to_string() } else { format!("regen:{}", csv(&regen)) } };
+					rec.case(&format!("bgev {} {} {} {}", c[0], c[1], csv(&qv[k].inflight), mv[k].mon_id), &format!("{} unblock:{}", first, unb as u8),
+						&format!("bgev:{}{}{}", if muc.is_some() { "muc" } else if regen.is_empty() { "none" } else { "regen" }, if unb { "+unblock" } else { "" }, if c[5] > 0 { "+blocked-at-write" } else { "" }), true);
+				} }
+			} }
 			// KF-C10-3 pattern: the manager copy holds blocked updates, the channel is resumed with a monitor copy past the manager's
 			// released id (so blocked updates are dropped as completed), and between the manager write and that monitor copy a
 			// preimage update jumped ahead of the blocked ones (their ids were bumped): same id, different content
@@ -725,6 +848,7 @@ fn main() {
 	rec.notes.insert("discarded_persister_mode_switch".into(), format!("{} worlds: the startup background events panic ('Watch::update_channel returned Completed while prior updates are still InProgress' / 'Attempted to apply ChannelMonitorUpdates out of order') only because the sim restarts the asynchronously persisting node with a synchronous persister; each was re-run and restarted 12 times with an asynchronous persister without a panic", persister_switch));
 	let (n_chain, chain_setup_errs) = chain_family(&mut rec, args);
 	rec.notes.insert("onchain_worlds".into(), format!("{} worlds with a channel closed on chain before the crash (payer / forwarder; commitment of either side, 0..ANTI_REORG_DELAY+2 blocks deep; PRESENT / DUST / ABSENT outbound HTLCs; manager written at the crash / before the blocks / before the close; optional shallow reorg to the counterparty's other commitment); {} could not be set up", n_chain, chain_setup_errs));
+	rec.notes.insert("reconstruction".into(), format!("{} admissible production-path worlds read a second time without side effects: pending_claims_to_replay / failed_htlcs (hook STARTUP_DECISIONS), pending_outbound_payments, generated PaymentSent / PaymentFailed and the background events of every resumed channel compared with Restart.claims / fails / paysAfter / bgEvents before any message is exchanged", n_recon));
 	rec.notes.insert("worlds".into(), format!("worlds={} admissible={} with_replay={} with_closed_channel={} second_crash={} settled={} discarded_nondeterministic_rerun={} discarded_stale_monitor_panic_after_read={}", n_worlds, n_adm, n_replay, n_closed, n_second, n_settled, nondet, late_panics));
 	rec.finish();
 }
